@@ -547,6 +547,16 @@ Proof.
   inversion H; subst; simpl. repeat split; [exact El | exact Ef].
 Qed.
 
+Lemma analyse_decl d order g : analyse d order = Ok g -> g_decl g = d.
+Proof.
+  unfold analyse. intro H.
+  destruct (reg (reg_fuel d) d (TSym (d_start d)) r0) as [r|]; cbn [bind] in H; [|discriminate].
+  match type of H with context [dist_loop ?a ?b ?c ?e ?f] => destruct (dist_loop a b c e f) as [m|] end;
+    cbn [bind] in H; [|discriminate].
+  match type of H with context [if ?b then _ else _] => destruct b end; [|discriminate].
+  inversion H; reflexivity.
+Qed.
+
 Theorem dist_exact d order g :
   d_xdepth d = false -> perm_order order -> analyse d order = Ok g ->
   forall c n, dget (g_dist g) (SC c) = Some n ->
@@ -867,3 +877,18 @@ Proof.
     apply X. exact Hreg.
 Qed.
 End DistFacts.
+
+(* the whole analysis is independent of the iteration order of the symbol set (C08) *)
+Theorem analysis_order_independent d order1 order2 g1 g2 :
+  d_xdepth d = false -> perm_order order1 -> perm_order order2 ->
+  analyse d order1 = Ok g1 -> analyse d order2 = Ok g2 ->
+  g_reg g1 = g_reg g2 /\ g_rec g1 = g_rec g2 /\ g_decl g1 = g_decl g2 /\
+  forall c n1 n2, dget (g_dist g1) (SC c) = Some n1 -> dget (g_dist g2) (SC c) = Some n2 ->
+                  (n1 < INF \/ n2 < INF) -> n1 = n2.
+Proof.
+  intros Hxd P1 P2 H1 H2.
+  destruct (dist_order_independent _ _ _ _ _ Hxd P1 P2 H1 H2) as [Hr Hd].
+  destruct (analyse_parts _ _ _ H1) as [_ [_ [_ R1]]]. destruct (analyse_parts _ _ _ H2) as [_ [_ [_ R2]]].
+  split; [exact Hr|]. split; [rewrite R1, R2, Hr; reflexivity|]. split; [|exact Hd].
+  rewrite (analyse_decl _ _ _ H1), (analyse_decl _ _ _ H2). reflexivity.
+Qed.
